@@ -2,12 +2,11 @@
    model_ok : the model predicts what the real code was observed to do (correspondence);
    prop_ok  : the property's own oracle, evaluated on the OBSERVED behaviour only (it never calls the
               step functions of Model.v, only the vocabulary: req, bits, rcount, ...). *)
-From V Require Export lib.Verdict C02.Model.
+From V Require Export lib.Verdict C02.Model C02.Spec.
 Open Scope N_scope.
 
 (* ------------------------------------------------------------------ equality tests *)
 
-Definition oN_eqb := option_eqb N.eqb.
 Definition pairN_eqb (a b : N * N) := (fst a =? fst b) && (snd a =? snd b).
 Definition rmap_eqb := list_eqb pairN_eqb.
 Definition req_eqb (a b : req) : bool :=
@@ -17,27 +16,6 @@ Definition req_eqb (a b : req) : bool :=
 Definition oreq_eqb := option_eqb req_eqb.
 
 Definition onat_eqb := option_eqb Nat.eqb.
-
-(* ------------------------------------------------------------------ spec vocabulary (independent of the step functions) *)
-
-Definition newest (a b : option N) : option N := match b with Some p => Some p | None => a end.
-
-Definition keys_of (m : rmap) : list N := map fst m.
-Definition rkeys (rs : list req) : list N := flat_map (fun r => keys_of (rget (reason r))) rs.
-
-Definition ucfg (l : list req) : N := fold_right (fun r acc => N.lor (bits (cfg r)) acc) 0 l.
-Definition uaddr (l : list req) : N := fold_right (fun r acc => N.lor (bits (addr r)) acc) 0 l.
-Definition uwp (l : list req) : N := fold_right (fun r acc => N.lor (bits (wp r)) acc) 0 l.
-Definition anyforced (l : list req) : bool := existsb forced l.
-Definition rc (k : N) (l : list req) : N := fold_right (fun r acc => rcount k (rget (reason r)) + acc) 0 l.
-Definition lastpush (l : list req) : option N := fold_left (fun acc r => newest acc (push r)) l None.
-
-(* [big] carries exactly what the requests of [parts] carry together (keys, forced, reasons, newest snapshot) *)
-Definition covers_exactly (big parts : list req) : bool :=
-  (ucfg big =? ucfg parts) && (uaddr big =? uaddr parts) && (uwp big =? uwp parts) &&
-  Bool.eqb (anyforced big) (anyforced parts) &&
-  forallb (fun k => rc k big =? rc k parts) (rkeys big ++ rkeys parts) &&
-  oN_eqb (lastpush big) (lastpush parts).
 
 (* ------------------------------------------------------------------ heap cases: Merge / CopyMerge *)
 
